@@ -13,7 +13,8 @@
 (* (cid); an emitted metric carries the cid the harness found for its      *)
 (* (name, value) - 0 if nobody reported it - and is compared with that     *)
 (* call's record.  Events:                                                 *)
-(*  scn  {producers, closers, max_packet, dests}                           *)
+(*  scn  {producers, closers, max_packet, dests, alive:[destinations that   *)
+(*        listen]}  - the first alive one is the reference destination     *)
 (*  call {t, op: report|flush|close, cid, tn, name, kind, v, tags}         *)
 (*  ret  {t, op, cid, err, alive}                                          *)
 (*  emit {dest, len, ok, common_ok, mets:[{cid, name, kind, v, tags, ts}]} *)
@@ -29,7 +30,7 @@ Pairs(qq) == [i \in 1..Len(qq) |-> <<qq[i][1], qq[i][2]>>]
 Dummy == [t \in Threads |-> "fin"]
 
 TInit ==
-  /\ l = 1 /\ calls = <<>> /\ cfgv = [max_packet |-> 0, dests |-> 1] /\ sentD = <<>> /\ bad = FALSE /\ occ = <<>> /\ lastTn = <<>>
+  /\ l = 1 /\ calls = <<>> /\ cfgv = [max_packet |-> 0, dests |-> 1, ref |-> 1, alive |-> {1}] /\ sentD = <<>> /\ bad = FALSE /\ occ = <<>> /\ lastTn = <<>>
   /\ pc = Dummy /\ idx = [t \in Threads |-> 1] /\ done = FALSE /\ pending = 0 /\ doneClosed = FALSE /\ metClosed = FALSE
   /\ q = <<>> /\ mets = <<>> /\ bytes = 0 /\ sent = <<>> /\ now = 1 /\ clk = 1
   /\ panicked = FALSE /\ closeRes = <<>> /\ called = {} /\ returned = {} /\ retAtClose = {} /\ closeCalled = FALSE
@@ -50,7 +51,8 @@ TNext ==
   /\ LET r == TraceLog[l] IN
      CASE r.e = "scn" ->
             /\ calls' = <<>> /\ sentD' = [d \in 1..r.dests |-> <<>>] /\ bad' = FALSE /\ occ' = <<>> /\ lastTn' = <<>>
-            /\ cfgv' = [max_packet |-> IF r.max_packet = 0 THEN 1440 ELSE r.max_packet, dests |-> r.dests]
+            /\ cfgv' = [max_packet |-> IF r.max_packet = 0 THEN 1440 ELSE r.max_packet, dests |-> r.dests,
+                        ref |-> r.alive[1], alive |-> {r.alive[i] : i \in 1..Len(r.alive)}]
             /\ panicked' = FALSE /\ closeRes' = <<>> /\ called' = {} /\ returned' = {} /\ retAtClose' = {}
             /\ closeCalled' = FALSE /\ closeReturned' = FALSE /\ lateEnq' = {} /\ Unobs
        [] r.e = "call" /\ r.op = "report" ->
@@ -69,7 +71,7 @@ TNext ==
             /\ closeRes' = [x \in DOMAIN closeRes \cup {r.t} |-> IF x = r.t THEN (IF r.err THEN "err" ELSE "ok") ELSE closeRes[x]]
             /\ closeReturned' = (closeReturned \/ ~r.err)
             /\ IF r.alive THEN Fail("NoLeak") ELSE TRUE
-            /\ IF ~r.err /\ \E d \in 2..cfgv.dests : sentD[d] # sentD[1] THEN Fail("EveryDestinationGetsEveryBatch") ELSE TRUE
+            /\ IF ~r.err /\ \E d \in cfgv.alive : sentD[d] # sentD[cfgv.ref] THEN Fail("EveryDestinationGetsEveryBatch") ELSE TRUE
             /\ IF ~r.err THEN JudgeClose ELSE TRUE
             /\ UNCHANGED <<calls, cfgv, sentD, bad, occ, lastTn, panicked, called, returned, retAtClose, closeCalled, lateEnq>> /\ Unobs
             /\ JudgeState
@@ -82,8 +84,8 @@ TNext ==
                 ths == {C(i).t : i \in known}
                 maxTn(t) == LET S == {C(i).tn : i \in {j \in known : C(j).t = t}} IN CHOOSE x \in S : \A y \in S : y <= x
             IN /\ sentD' = [sentD EXCEPT ![r.dest] = IF n = 0 THEN @ ELSE Append(@, cids)]
-               /\ occ' = IF r.dest = 1 THEN [i \in 1..Len(occ) |-> IF i \in cidSet THEN occ[i] + 1 ELSE occ[i]] ELSE occ
-               /\ lastTn' = IF r.dest = 1
+               /\ occ' = IF r.dest = cfgv.ref THEN [i \in 1..Len(occ) |-> IF i \in cidSet THEN occ[i] + 1 ELSE occ[i]] ELSE occ
+               /\ lastTn' = IF r.dest = cfgv.ref
                             THEN [t \in DOMAIN lastTn \cup ths |-> IF t \in ths THEN (IF t \in DOMAIN lastTn /\ lastTn[t] > maxTn(t) THEN lastTn[t] ELSE maxTn(t)) ELSE lastTn[t]]
                             ELSE lastTn
                /\ lateEnq' = lateEnq \cup {cids[i] : i \in {j \in known : C(j).late}}
@@ -94,10 +96,10 @@ TNext ==
                   ELSE IF \E i \in known : C(i).kind # r.mets[i].kind THEN Fail("Intact:kind")
                   ELSE IF \E i \in known : C(i).tags # Pairs(r.mets[i].tags) THEN Fail("Intact:tags")
                   ELSE IF closeReturned THEN Fail("CloseDrains:emit-after-Close-returned")
-                  ELSE IF r.dest = 1 /\ (Cardinality(cidSet) # n \/ \E i \in known : occ[cids[i]] >= 1) THEN Fail("AtMostOnce")
+                  ELSE IF r.dest = cfgv.ref /\ (Cardinality(cidSet) # n \/ \E i \in known : occ[cids[i]] >= 1) THEN Fail("AtMostOnce")
                   ELSE IF \E i \in known : r.mets[i].ts # "ok" THEN Fail("TimestampBracket:" \o (CHOOSE x \in {r.mets[i].ts : i \in known} : x # "ok"))
-                  ELSE IF r.dest = 1 /\ \E i, j \in known : i < j /\ C(i).t = C(j).t /\ C(i).tn > C(j).tn THEN Fail("OrderPreserved")
-                  ELSE IF r.dest = 1 /\ \E i \in known : C(i).t \in DOMAIN lastTn /\ C(i).tn < lastTn[C(i).t] THEN Fail("OrderPreserved")
+                  ELSE IF r.dest = cfgv.ref /\ \E i, j \in known : i < j /\ C(i).t = C(j).t /\ C(i).tn > C(j).tn THEN Fail("OrderPreserved")
+                  ELSE IF r.dest = cfgv.ref /\ \E i \in known : C(i).t \in DOMAIN lastTn /\ C(i).tn < lastTn[C(i).t] THEN Fail("OrderPreserved")
                   ELSE TRUE
                /\ UNCHANGED <<calls, cfgv, bad, panicked, closeRes, called, returned, retAtClose, closeCalled, closeReturned>> /\ Unobs
                /\ JudgeState
